@@ -96,6 +96,7 @@ type c02case struct {
 	Flags  []string `json:"flags"`
 	Level  int      `json:"logger_level"`
 	Dest   int      `json:"dest_set"`
+	Prior  bool     `json:"prior_record,omitempty"` // another logger formatted a colored multi-line record (trailing newline, error value) just before
 }
 
 var c02flagNames = map[string]slog.Flags{"Lcaller": slog.Lcaller, "LattrsR": slog.LattrsR, "LlocalTime": slog.LlocalTime}
@@ -172,7 +173,7 @@ func c02eval(cas c02case) *Violation {
 		fl |= c02flagNames[f]
 	}
 	mkViol := func(clause, detail string) *Violation {
-		sig := fmt.Sprintf("C02|%s|entry=%s|msg=%s|args=%s|format=%s", clause, cas.Entry, cas.MsgQ, strings.Join(cas.Args, ","), cas.Format)
+		sig := fmt.Sprintf("C02|%s|entry=%s|msg=%s|args=%s|format=%s|prior=%v", clause, cas.Entry, cas.MsgQ, strings.Join(cas.Args, ","), cas.Format, cas.Prior)
 		return mkViolation(sig, clause, detail+fmt.Sprintf(" [logger level %s, flags %v, destinations %s]", levelName(slog.Level(cas.Level)), cas.Flags, c02dests[cas.Dest]), cas)
 	}
 	run := func(dest int) (rec *recorder, pan string, normal, errw []string, leveled map[slog.Level][]string) {
@@ -198,6 +199,10 @@ func c02eval(cas c02case) *Violation {
 			l.SetColorMode(false)
 		default:
 			l.SetColorMode(true)
+		}
+		if cas.Prior {
+			o := slog.New("other").SetWriter(io.Discard).SetErrorWriter(io.Discard).SetLevel(slog.AlwaysLevel).SetColorMode(true)
+			o.Error("prior line one\nprior line two\n", "err", errors.New("prior"), slog.Group("pg", "x", 1), slog.Group("pz"))
 		}
 		pan = c02issue(ent, l, msg, mkArgs())
 		return
@@ -357,6 +362,9 @@ func c02cases(thorough bool, emit func(c02case)) {
 				for _, lv := range levels {
 					for d := 0; d < 3; d++ {
 						emit(c02case{Layer: "B-msg-level-dest", Entry: e.name, MsgQ: qk(m), Args: []string{`"k"`, "1"}, Format: f, Level: int(lv), Dest: d})
+						if d == 0 && lv == slog.TraceLevel {
+							emit(c02case{Layer: "B2-after-a-prior-record", Entry: e.name, MsgQ: qk(m), Args: []string{`"k"`, "1"}, Format: f, Level: int(lv), Dest: d, Prior: true})
+						}
 						if strings.Contains(m, "\n") && lv == slog.TraceLevel {
 							emit(c02case{Layer: "B-msg-level-dest", Entry: e.name, MsgQ: qk(m), Args: []string{`"k"`, "error", "Group(flat)"}, Format: f, Level: int(lv), Dest: d})
 						}
